@@ -80,24 +80,59 @@ def write_coqproject():
 def coq_make(targets=None, timeout=3000, keep_going=False):
     """Regenerate Gen/*.v from the source, then (incrementally) build `targets` (.vo paths relative to coq/),
     or everything.  Serialised by a file lock.  Raises CoqBuildError with the log."""
-    import facts
     lock = open(os.path.join(VERIF, 'work', '.coq.lock'), 'w')
     fcntl.flock(lock, fcntl.LOCK_EX)
     try:
-        facts.regenerate(os.path.join(THEORIES, 'Gen'))
-        changed = write_coqproject()
-        if changed or not os.path.exists(os.path.join(COQ, 'Makefile')):
-            rc, out = sh('coq_makefile -f _CoqProject -o Makefile', cwd=COQ)
-            if rc:
-                raise CoqBuildError('Makefile', out)
-        tgt = ' '.join(targets) if targets else ''
-        rc, out = sh('timeout %d make %s -j%d %s 2>&1' % (timeout, '-k' if keep_going else '', NCPU, tgt), cwd=COQ, timeout=timeout + 30)
-        if rc:
-            raise CoqBuildError(tgt or 'all', out[-6000:])
-        return out
+        return _build_locked(targets, timeout, keep_going)
     finally:
         fcntl.flock(lock, fcntl.LOCK_UN)
         lock.close()
+
+
+def _build_locked(targets, timeout=3000, keep_going=False):
+    """The build proper; the caller holds the exclusive lock."""
+    import facts
+    facts.regenerate(os.path.join(THEORIES, 'Gen'))
+    changed = write_coqproject()
+    if changed or not os.path.exists(os.path.join(COQ, 'Makefile')):
+        rc, out = sh('coq_makefile -f _CoqProject -o Makefile', cwd=COQ)
+        if rc:
+            raise CoqBuildError('Makefile', out)
+    tgt = ' '.join(targets) if targets else ''
+    rc, out = sh('timeout %d make %s -j%d %s 2>&1' % (timeout, '-k' if keep_going else '', NCPU, tgt), cwd=COQ, timeout=timeout + 30)
+    if rc:
+        raise CoqBuildError(tgt or 'all', out[-6000:])
+    return out
+
+
+class gen_in_step(object):
+    """Context manager around every evaluation of the model: under the exclusive lock the generated facts are brought in step with
+    THIS run's tree (a no-op unless another run, against another tree, rewrote coq/theories/Gen in between - then the imported
+    theories are rebuilt), then the lock is downgraded to shared for the duration of the evaluation, so that evaluations run in
+    parallel with each other but never while somebody regenerates or rebuilds."""
+
+    def __init__(self, imports, targets=None):
+        self.targets = targets if targets is not None else sorted(set('theories/%s.vo' % m.replace('.', '/') for l in imports for m in re.findall(r'\b((?:Base|Model|Exec|Proofs|Gen)\.[A-Za-z0-9_]+)', l)))
+
+    def __enter__(self):
+        import facts
+        self.lock = open(os.path.join(VERIF, 'work', '.coq.lock'), 'w')
+        fcntl.flock(self.lock, fcntl.LOCK_EX)
+        try:
+            facts.regenerate(os.path.join(THEORIES, 'Gen'))
+            if facts.CHANGED and self.targets:
+                try:
+                    _build_locked(self.targets)
+                except CoqBuildError:
+                    pass            # the evaluation then fails and is reported per case
+        finally:
+            fcntl.flock(self.lock, fcntl.LOCK_SH)
+        return self
+
+    def __exit__(self, *a):
+        fcntl.flock(self.lock, fcntl.LOCK_UN)
+        self.lock.close()
+        return False
 
 
 # axioms that may appear in `Print Assumptions` output, per property (everything else fails the check)
@@ -165,8 +200,9 @@ def _check_one_properties_file(pid, rel, timeout):
     # fresh compile (make may have had it up to date): output carries the Print Assumptions text
     wd = tempfile.mkdtemp(prefix='prop_', dir=os.path.join(VERIF, 'work'))
     try:
-        rc, out = sh('timeout %d coqc -w -all -Q theories E3FP -o %s/%s.vo %s' % (timeout, wd, base[:-2], rel), cwd=COQ,
-                     timeout=timeout + 30)
+        with gen_in_step([], targets=[rel + 'o']):
+            rc, out = sh('timeout %d coqc -w -all -Q theories E3FP -o %s/%s.vo %s' % (timeout, wd, base[:-2], rel), cwd=COQ,
+                         timeout=timeout + 30)
     finally:
         shutil.rmtree(wd, ignore_errors=True)
     res['log'] = out[-4000:]
@@ -314,15 +350,16 @@ def coq_eval_bools(cases, imports, workdir, shard=300, timeout=1200, prelude='')
         return subprocess.Popen('ulimit -s unlimited 2>/dev/null; timeout %d coqc -w -all -Q %s E3FP %s' % (timeout, THEORIES, fn),
                                 shell=True, cwd=workdir, stdout=subprocess.PIPE, stderr=subprocess.STDOUT, text=True)
     pending = list(files)
-    while pending or running:
-        while pending and len(running) < NCPU:
-            fn = pending.pop(0)
-            running.append((fn, launch(fn)))
-        fn, p = running.pop(0)
-        out, _ = p.communicate()
-        logs[fn] = out
-        for m in FLAG_RE.finditer(out):
-            results[index_of[int(m.group(1))]] = (m.group(2) == 'true')
+    with gen_in_step(imports):
+        while pending or running:
+            while pending and len(running) < NCPU:
+                fn = pending.pop(0)
+                running.append((fn, launch(fn)))
+            fn, p = running.pop(0)
+            out, _ = p.communicate()
+            logs[fn] = out
+            for m in FLAG_RE.finditer(out):
+                results[index_of[int(m.group(1))]] = (m.group(2) == 'true')
     for k in keys:
         results.setdefault(k, None)
     return results, logs
@@ -335,8 +372,9 @@ def coq_eval_raw(expr, imports, workdir, timeout=300, prelude=''):
     with open(fn, 'w') as f:
         f.write(''.join('%s\n' % l for l in imports) + 'Open Scope Z_scope.\nSet Printing Width 200.\n' + prelude +
                 '\nEval vm_compute in (%s).\n' % expr)
-    rc, out = sh('ulimit -s unlimited 2>/dev/null; timeout %d coqc -w -all -Q %s E3FP %s' % (timeout, THEORIES, fn), cwd=workdir,
-                 timeout=timeout + 30)
+    with gen_in_step(imports):
+        rc, out = sh('ulimit -s unlimited 2>/dev/null; timeout %d coqc -w -all -Q %s E3FP %s' % (timeout, THEORIES, fn), cwd=workdir,
+                     timeout=timeout + 30)
     return out.strip()
 
 
